@@ -319,6 +319,19 @@ impl ProgEnv {
     }
 }
 
+impl ProgEnv {
+    /// Environments by name (recorded in replay files).
+    pub fn named(kind: &str, cost: Cost, limit: u64) -> Self {
+        let mut e = Self::basic(cost, limit);
+        if kind == "two-solutions" {
+            let mut s1 = test_solution(vec![vec![7], vec![8, 9]]);
+            s1.predicate_to_solve.predicate = ca(0xA2);
+            e.solutions = Arc::new(vec![test_solution(vec![vec![1, 2, 3], vec![]]), s1]);
+        }
+        e
+    }
+}
+
 impl RefEnv for ProgEnv {
     fn solutions(&self) -> &[Solution] {
         &self.solutions
